@@ -35,7 +35,9 @@ def gen(rng, tier):
             x = [rng.randrange(2) for _ in range(n)]
         else:
             rows = rng.randint(1, 8)
-            pool = rng.choice([[0, 1, 2, 3], [1, 2, 5, 9], [-7, -2, 4, 100], [3, 10 ** 6, 10 ** 9, -10 ** 9], [5]])
+            pool = rng.choice([[0, 1, 2, 3], [1, 2, 5, 9], [-7, -2, 4, 100], [3, 10 ** 6, 10 ** 9, -10 ** 9], [5],
+                               # negative identifiers whose maximum happens to equal (number of identifiers - 1)
+                               [-2, 0, 2], [-7, 1], [-4, -3, 2], [-1, 0, 1], [-3, -2, -1, 3]])
             ids = [rng.choice(pool) for _ in range(rows)]
             base = {"kind": "grouped", "ids": ids, "as_list": rng.random() < 0.3}
             x = [rng.randrange(2) for _ in range(len(set(ids)))]
@@ -45,7 +47,7 @@ def gen(rng, tier):
         elif tk == "fork_int":
             trans = {"kind": "fork", "size": rng.randint(0, 3)}
         elif tk == "fork_vec":
-            trans = {"kind": "fork", "size": [rng.choice([0, 1, 1, 2, 3]) for _ in range(rows)]}
+            trans = {"kind": "fork", "size": [1] * rows if rng.random() < 0.2 else [rng.choice([0, 1, 1, 2, 3]) for _ in range(rows)]}
         elif tk == "slice":
             trans = {"kind": "slice", "s": [rng.choice([None, -rows - 1, -2, -1, 0, 1, 2, rows, rows + 2]),
                                             rng.choice([None, -rows - 1, -2, -1, 0, 1, 2, rows, rows + 2]),
@@ -121,6 +123,15 @@ def run_impl(c):
         p2 = p[np.array(t["m"], dtype=bool)] if t["np"] else p[list(t["m"])]
     q1 = p2.query(x)
     assert np.asarray(q0).ndim == 1 and np.asarray(q1).ndim == 1
+    # the transformed provenance is a container of its own (row-wise COPY of the selection): an in-place edit of the source afterwards
+    # must not show through it, nor an edit of it through the source (whatever the repeat counts / selection, incl. the identity)
+    if p2 is not p and len(p) >= 2 and len(p2) >= 1:
+        q1_before = np.asarray(q1).tolist()
+        p[0] = p[len(p) - 1]
+        assert np.asarray(p2.query(x)).tolist() == q1_before, "editing the source changed the derived provenance"
+        src_after = np.asarray(p.query(x)).tolist()
+        p2[0] = p2[len(p2) - 1]
+        assert np.asarray(p.query(x)).tolist() == src_after, "editing the derived provenance changed the source"
     return {"units": units_out, "q_orig": np.asarray(q0).tolist(), "q_trans": np.asarray(q1).tolist(), "len": len(p2)}
 
 
